@@ -1,0 +1,13 @@
+//go:build verif
+
+package common
+
+import "github.com/MixinNetwork/mixin/crypto"
+
+// Verification hook (build tag verif) for the /verif C02 harness: reaches the
+// unexported input authorization step with a caller-chosen transaction type
+// and payload hash.  Returns only the decision.
+func VerifC02ValidateInputs(tx *SignedTransaction, store UTXOLockReader, hash crypto.Hash, txType uint8, fork bool) error {
+	_, _, err := tx.validateInputs(store, hash, txType, fork)
+	return err
+}
